@@ -154,8 +154,8 @@ theorem Refine.toks_eq {e a : List SFrame} (h : Refine e a) : toks e = toks a :=
   | nil => rfl
   | same f _ ih => simp only [toks_cons, ih]
   | split l r eos _ ih =>
-    simp only [toks_cons, ih, tok, List.replicate_add, List.append_assoc]
-    simp
+    simp only [toks_cons, ih, tok, ← List.replicate_append_replicate, List.append_assoc, if_false, Bool.false_eq_true,
+      List.nil_append]
 
 /-- total number of DATA octets in a frame sequence -/
 def dataLen : List SFrame → Nat
